@@ -4,6 +4,7 @@ import json
 from . import common, pool
 from .common import log
 
+import re
 PROP = "C02"
 TRUSTED = [
     "Coq 8.16.1 kernel; the theorems of coq/C02/Props.v (31) are fixed-point statements about the passes modelled for other properties: stable sort of a sorted list, range normalisation, and the import pipeline of coq/C10 (normalize_idem, regroup_idem_* for Preserve / Item / Module, pipeline_idem_from_regroup, with _refuted witnesses for Crate / One / self chains / repeated imports); the blank-line clamp, trailing-newline cut and newline conversion fixed points are in coq/C08: Closed under the global context",
@@ -40,6 +41,18 @@ WITNESSES = [
     ("regroup_idem_one_refuted", "One", "use a::b;\nuse a::b::c;\nuse a;\n"),
     ("regroup_idem_nested_empty", "Crate", "use a::{self, b::{}};\n"),
 ]
+
+
+HEAD_PREFIXES = ["", "\n", "  \n", "\t\n", " \n \n", "\n  \n", "\r\n", " \r\n", "\n\n\n"]
+HEAD_FIRSTS = ["// leading comment\nfn a() {}\n", "/* block */\nfn a() {}\n", "//! inner doc\nfn a() {}\n", "#![allow(dead_code)]\nfn a() {}\n",
+               "fn a() {}\n", "use a::b;\nfn a() {}\n", "mod m {}\n", "/// outer doc\nfn a() {}\n", "#[inline]\nfn a() {}\n", "// only a comment\n"]
+HEAD_TAILS = ["", "\n", "  \n", "\n\n", "  ", "\t\n// trailing\n", "\n  \n// trailing\n  \n", "\r\n"]
+LIT_OPTIONS = [(), ("float_literal_trailing_zero", "Always"), ("float_literal_trailing_zero", "IfNoPostfix"), ("float_literal_trailing_zero", "Never"),
+               ("float_literal_trailing_zero", "Preserve"), ("hex_literal_case", "Upper"), ("hex_literal_case", "Lower"), ("hex_literal_case", "Preserve")]
+LIT_SPELLINGS = ["1.", "1.0", "1e3", "1.5e3", "1f32", "1.0f64", "1_000.", "0.", "2.50", "0x1f", "0xAB", "0b1", "1", "1.0e-7", "1.E3", "1.00_f32"]
+LIT_CONTEXTS = ["let v = A..B;", "let v = A..=B;", "let v = A..;", "let v = ..A;", "let v = A .. B;", "let v = A.neg();", "let v = A .neg();", "let v = -A;", "let v = A + B;",
+                "let v = A as f64;", "let v = (A, B);", "let v = [A; 3];", "let v = f(A, B);", "let v = A.max(B);", "let v = -A..-B;", "let v = x + A..y - B;",
+                "if let A..=B = v {}", "for _ in (A..B).step_by(2) {}"]
 
 
 def cfg_id(over):
@@ -169,6 +182,29 @@ def run(tier, seed, replay):
                         continue
                     cases.append({"text": text, "config": [["max_width", str(w)]], "again": True, "lex": False})
                     meta.append(("clist/attr%d.n%d" % (ai, nest), "orig", "base", str(w)))
+    # the head and the tail of a file: blank / white-space-only lines (LF and CRLF) before the first thing of each kind and after the last
+    if not replay or json.load(open(replay)).get("pool_id", "").startswith("head/"):
+        for pi, pre in enumerate(HEAD_PREFIXES):
+            for fi, first in enumerate(HEAD_FIRSTS):
+                for ti, tail in enumerate(HEAD_TAILS):
+                    if tier != "thorough" and ti and (pi + fi + ti + seed) % 3:
+                        continue
+                    cases.append({"text": pre + first + tail, "config": [], "again": True, "lex": False})
+                    meta.append(("head/%d.%d.%d" % (pi, fi, ti), "orig", "base", "100"))
+    # every literal spelling in every operator context under every value of the options that rewrite literals
+    if not replay or json.load(open(replay)).get("pool_id", "").startswith("lit/"):
+        for oi, opt in enumerate(LIT_OPTIONS):
+            for ci, ctxt in enumerate(LIT_CONTEXTS):
+                for ai, a in enumerate(LIT_SPELLINGS):
+                    for b in (LIT_SPELLINGS[0], a):
+                        if tier != "thorough" and (oi + ci + ai + seed) % 2 and not (a.endswith(".") and oi in (1, 2, 3, 5)):
+                            continue
+                        # one statement per file (a spelling that does not lex in a context must not hide the others); `1.` directly
+                        # before `..` / `.name` would lex differently, so it gets the space a programmer has to write there
+                        st = re.sub(r"(A|B)(?=\.)", lambda m: m.group(1) + " ", ctxt) if (a.endswith(".") or b.endswith(".")) else ctxt
+                        st = st.replace("A", a).replace("B", b)
+                        cases.append({"text": "fn literals() {\n    " + st + "\n}\n", "config": [list(opt)] if opt else [], "again": True, "lex": False})
+                        meta.append(("lit/%d.%d.%d%s" % (oi, ci, ai, "" if b == a else "m"), "orig", "=".join(opt) if opt else "base", "100"))
     res = common.run_vh_pool("pool", cases, per_case_timeout=15)
     n_acc = 0
     nontrivial = set()
